@@ -115,6 +115,7 @@ Qed.
 Lemma rangeb_complete : forall h, (forall i c, In c (n_kids (getn h i)) -> c < length h) -> rangeb h = true.
 Proof.
   intros h H. unfold rangeb. apply (forallb_nth _ h empty_node). intros i Li.
+  change (nth i h empty_node) with (getn h i).
   apply forallb_forall. intros c Hc. apply Nat.ltb_lt. apply (H i). exact Hc.
 Qed.
 
@@ -124,9 +125,11 @@ Lemma consb_complete : forall h,
   consb h = true.
 Proof.
   intros h H. unfold consb. apply (forallb_nth _ h empty_node). intros i1 L1.
+  change (nth i1 h empty_node) with (getn h i1).
   apply forallb_forall. intros c Hc. apply orb_true_iff. right.
   apply (forallb_nth _ h empty_node). intros i2 L2.
-  destruct (existsb (Nat.eqb c) (n_kids (nth i2 h empty_node))) eqn:E; [|reflexivity].
+  change (nth i2 h empty_node) with (getn h i2).
+  destruct (existsb (Nat.eqb c) (n_kids (getn h i2))) eqn:E; [|reflexivity].
   cbn. apply existsb_exists in E as (c' & Hc' & Ec'). apply Nat.eqb_eq in Ec'. subst c'.
   rewrite (H i1 i2 c Hc Hc').
   destruct (option_map type_attr (aty1 (n_attrs (getn h i2)))); cbn; [apply attr_beq_refl|reflexivity].
@@ -216,7 +219,7 @@ End Processed.
 Lemma input_ok_parts : forall h b, input_ok h b = true ->
   wf_refs h b = true /\ body_top h b = true /\ rangeb h = true /\ parents_unique h = true /\ bare_refs h b = true.
 Proof.
-  intros h b H. unfold input_ok in H. repeat (apply andb_true_iff in H as [H ?]). auto.
+  intros h b H. unfold input_ok in H. do 4 (apply andb_true_iff in H as [H ?]). repeat split; assumption.
 Qed.
 
 (* input_ok b = true -> heap_ok (process b) = true *)
